@@ -3,6 +3,8 @@ from props_common import BASE_TB
 PROP = {
     "modules": ["YorkieModel.Props.C06"],
     "engines": [
+        # integrated engine: real client SDK + real in-process server (memory DB), traffic captured at the HTTP transport
+        {"name": "srv", "args": ["orc=c06"], "quick": {"n": 640, "workers": 8}, "thorough": {"n": 16000, "workers": 14}},
         # oracle-only: replicas that edit before SetActor/Attach (known finding c01-pre-attach-edit)
         {"name": "crdtpre", "quick": {"n": 240, "workers": 4}, "thorough": {"n": 20000, "workers": 8}},
         {"name": "time", "quick": {"n": 4000, "workers": 8}, "thorough": {"n": 400000, "workers": 14}},
